@@ -1059,4 +1059,382 @@ theorem evalLoop_error_fraction (gs : List (Option Num × Option Nat)) (acc : Ac
           | true => simp only [hz, ↓reduceIte] at h; exact ih _ hsc' h
           | false => simp only [hz, Bool.false_eq_true, ↓reduceIte] at h; exact ih _ hsc' h
 
+/-- `unit * int(x / unit + 0.5)` moves a non-negative value by at most half a unit -/
+theorem roundUnit_bounds (x : Rat) (hx : 0 ≤ x) (u : Nat) (hu : 0 < u) :
+    (roundUnit x u : Rat) - x ≤ (u : Rat) / 2 ∧ x - (roundUnit x u : Rat) ≤ (u : Rat) / 2 := by
+  have hU : (0 : Rat) < (u : Rat) := Rat.natCast_pos.mpr hu
+  have hU0 : (u : Rat) ≠ 0 := by grind
+  unfold roundUnit
+  generalize hy : x / (u : Rat) + 1 / 2 = y
+  have hyu : y * (u : Rat) = x + (u : Rat) / 2 := by
+    rw [← hy]
+    have := Rat.div_mul_cancel (a := x) hU0
+    grind
+  have h1 := Rat.floor_le y
+  have h2 := Rat.lt_floor_add_one y
+  have h3 : ((y.floor + 1 : Int) : Rat) = (y.floor : Rat) + 1 := by push_cast; rfl
+  rw [h3] at h2
+  have hy0 : 0 ≤ y := by
+    have := Rat.mul_nonneg hx (Rat.le_of_lt (Rat.inv_pos.mpr hU))
+    rw [← Rat.div_def] at this
+    grind
+  have hf : (0 : Int) ≤ y.floor := Rat.le_floor_iff.mpr (by simpa using hy0)
+  have hc : ((y.floor.toNat : Nat) : Rat) = ((y.floor : Int) : Rat) := by
+    have := Int.toNat_of_nonneg hf
+    exact_mod_cast congrArg (fun z : Int => (z : Rat)) this
+  have hm1 := Rat.mul_le_mul_of_nonneg_right h1 (Rat.le_of_lt hU)
+  have hm2 := Rat.mul_lt_mul_of_pos_right h2 hU
+  rw [hyu] at hm1 hm2
+  have hcast : ((u * y.floor.toNat : Nat) : Rat) = (u : Rat) * ((y.floor : Int) : Rat) := by
+    push_cast; rw [hc]
+  rw [hcast]
+  generalize ((y.floor : Int) : Rat) = k at hm1 hm2
+  constructor <;> grind
+
+theorem roundUnit_multiple (u k : Nat) (hu : 0 < u) : roundUnit ((u * k : Nat) : Rat) u = u * k := by
+  have hU : (0 : Rat) < (u : Rat) := Rat.natCast_pos.mpr hu
+  have hU0 : (u : Rat) ≠ 0 := by grind
+  unfold roundUnit
+  have hy : ((u * k : Nat) : Rat) / (u : Rat) + 1 / 2 = (k : Rat) + 1 / 2 := by
+    push_cast
+    have : (u : Rat) * (k : Rat) / (u : Rat) = (k : Rat) := by
+      rw [Rat.mul_comm, Rat.div_def, Rat.mul_assoc, Rat.mul_inv_cancel _ hU0, Rat.mul_one]
+    rw [this]
+  rw [hy]
+  have hfl : ((k : Rat) + 1 / 2).floor = (k : Int) := by
+    have h1 : (k : Int) ≤ ((k : Rat) + 1 / 2).floor := Rat.le_floor_iff.mpr (by push_cast; grind)
+    have h2 : ((k : Rat) + 1 / 2).floor < (k : Int) + 1 := Rat.floor_lt_iff.mpr (by push_cast; grind)
+    omega
+  rw [hfl]
+  simp
+
+/-- the coarse part of `timestr_approx` (minutes from 10 h, hours from 10 d): the value moves by at
+    most half the step of its magnitude class -/
+theorem approxCoarse_bounds (a : AVal) (hv : 0 ≤ a.v) :
+    (a.v < 36000 → (approxCoarse a).a.v = a.v) ∧
+    (36000 ≤ a.v → a.v < 864000 →
+      (approxCoarse a).a.v - a.v ≤ 30 ∧ a.v - (approxCoarse a).a.v ≤ 30) ∧
+    (864000 ≤ a.v →
+      (approxCoarse a).a.v - a.v ≤ 1800 ∧ a.v - (approxCoarse a).a.v ≤ 1800) := by
+  have c1 : ((10 * 3600 : Nat) : Rat) = 36000 := by decide
+  have c2 : ((10 * 86400 : Nat) : Rat) = 864000 := by decide
+  have e1 : Gen.secPerDay = 86400 := rfl
+  have e2 : Gen.secPerHour = 3600 := rfl
+  have e3 : Gen.secPerMin = 60 := rfl
+  unfold approxCoarse
+  simp only [e1, e2, e3, c1, c2]
+  refine ⟨?_, ?_, ?_⟩
+  · intro h
+    have n1 : ¬ ((36000 : Rat) ≤ a.v ∧ a.v < 864000) := by grind
+    have n2 : ¬ ((864000 : Rat) ≤ a.v) := by grind
+    simp only [n1, ↓reduceIte, n2]
+  · intro h1 h2
+    have p1 : (36000 : Rat) ≤ a.v ∧ a.v < 864000 := ⟨h1, h2⟩
+    simp only [p1, and_self, ↓reduceIte]
+    have hb := roundUnit_bounds a.v hv 60 (by decide)
+    have h60 : ((60 : Nat) : Rat) / 2 = 30 := by grind
+    rw [h60] at hb
+    by_cases hc : (864000 : Rat) ≤ (roundUnit a.v 60 : Rat)
+    · simp only [hc, ↓reduceIte]
+      -- the corner: rounding to minutes reached exactly 10 days, a multiple of an hour
+      have hlt : (roundUnit a.v 60 : Rat) < 864030 := by grind
+      have hlt' : roundUnit a.v 60 < 864030 := by exact_mod_cast hlt
+      have hge' : 864000 ≤ roundUnit a.v 60 := by exact_mod_cast hc
+      have hm : roundUnit a.v 60 = 3600 * 240 := by
+        unfold roundUnit at hlt' hge' ⊢
+        omega
+      rw [hm, roundUnit_multiple 3600 240 (by decide), ← hm]
+      exact hb
+    · simp only [hc, ↓reduceIte]
+      exact hb
+  · intro h
+    have n1 : ¬ ((36000 : Rat) ≤ a.v ∧ a.v < 864000) := by grind
+    simp only [n1, ↓reduceIte, h]
+    have hb := roundUnit_bounds a.v hv 3600 (by decide)
+    have h3600 : ((3600 : Nat) : Rat) / 2 = 1800 := by grind
+    rw [h3600] at hb
+    exact hb
+
+/-! ### the alphabet: whatever the matchers consume is made of allowed characters -/
+
+/-- the characters that can occur in a duration string of either format -/
+def allowedChar (c : Char) : Bool :=
+  c.isDigit || isWs c || isMark c || isD c || isH c || isM c || isS c ||
+    c == 'P' || c == 'T' || c == 'Y'
+
+def allAllowed (cs : List Char) : Prop := ∀ c ∈ cs, allowedChar c = true
+
+/-- `rest` is what is left of `cs` after consuming allowed characters only -/
+def Consumes (cs rest : List Char) : Prop := ∃ pre, cs = pre ++ rest ∧ allAllowed pre
+
+theorem Consumes.refl (cs : List Char) : Consumes cs cs := ⟨[], rfl, fun _ h => nomatch h⟩
+
+theorem Consumes.trans {a b c : List Char} (h1 : Consumes a b) (h2 : Consumes b c) : Consumes a c := by
+  obtain ⟨p1, e1, a1⟩ := h1
+  obtain ⟨p2, e2, a2⟩ := h2
+  refine ⟨p1 ++ p2, by rw [e1, e2, List.append_assoc], ?_⟩
+  intro x hx
+  rcases List.mem_append.mp hx with h | h
+  · exact a1 x h
+  · exact a2 x h
+
+theorem Consumes.cons {c : Char} {cs rest : List Char} (hc : allowedChar c = true)
+    (h : Consumes cs rest) : Consumes (c :: cs) rest := by
+  obtain ⟨p, e, a⟩ := h
+  refine ⟨c :: p, by rw [e]; rfl, ?_⟩
+  intro x hx
+  rcases List.mem_cons.mp hx with h | h
+  · rw [h]; exact hc
+  · exact a x h
+
+theorem Consumes.all {cs : List Char} (h : Consumes cs []) : allAllowed cs := by
+  obtain ⟨p, e, a⟩ := h
+  rw [e, List.append_nil]; exact a
+
+theorem consumes_skipWs (cs : List Char) : Consumes cs (skipWs cs) := by
+  induction cs with
+  | nil => exact Consumes.refl _
+  | cons c cs ih =>
+    cases h : isWs c with
+    | true =>
+      have : skipWs (c :: cs) = skipWs cs := by simp [skipWs, h]
+      rw [this]
+      exact Consumes.cons (by simp [allowedChar, h]) ih
+    | false => rw [skipWs_cons_of_not_ws _ h]; exact Consumes.refl _
+
+theorem consumes_takeDigits (cs : List Char) : Consumes cs (takeDigits cs).2 := by
+  induction cs with
+  | nil => exact Consumes.refl _
+  | cons c cs ih =>
+    cases h : c.isDigit with
+    | true =>
+      have : (takeDigits (c :: cs)).2 = (takeDigits cs).2 := by simp [takeDigits, h]
+      rw [this]
+      exact Consumes.cons (by simp [allowedChar, h]) ih
+    | false =>
+      have : (takeDigits (c :: cs)).2 = c :: cs := by simp [takeDigits, h]
+      rw [this]; exact Consumes.refl _
+
+theorem consumes_parseNum (cs : List Char) (n : Num) (rest : List Char)
+    (h : parseNum cs = some (n, rest)) : Consumes cs rest := by
+  unfold parseNum at h
+  have h0 := consumes_takeDigits cs
+  generalize takeDigits cs = p at h h0
+  obtain ⟨ip, r0⟩ := p
+  simp only at h0
+  cases ip with
+  | nil => simp at h
+  | cons d ds =>
+    simp only at h
+    cases r0 with
+    | nil => simp at h; rw [h.2]; exact h0
+    | cons c r1 =>
+      simp only at h
+      cases hm : isMark c with
+      | false => simp [hm] at h; rw [← h.2]; exact h0
+      | true =>
+        simp only [hm, ↓reduceIte] at h
+        have h1 := consumes_takeDigits r1
+        generalize takeDigits r1 = q at h h1
+        obtain ⟨fp, r2⟩ := q
+        simp only at h1
+        cases fp with
+        | nil => simp at h; rw [← h.2]; exact h0
+        | cons e es =>
+          simp at h
+          rw [← h.2]
+          exact h0.trans (Consumes.cons (by simp [allowedChar, hm]) h1)
+
+theorem consumes_optGroup (ws : Bool) (isU : Char → Bool) (hU : ∀ c, isU c = true → allowedChar c = true)
+    (cs : List Char) : Consumes cs (optGroup ws isU cs).2 := by
+  unfold optGroup
+  cases hp : parseNum cs with
+  | none => exact Consumes.refl _
+  | some nr =>
+    obtain ⟨n, rest⟩ := nr
+    have h1 := consumes_parseNum cs n rest hp
+    have h2 : Consumes rest (if ws then skipWs rest else rest) := by
+      cases ws
+      · exact Consumes.refl _
+      · exact consumes_skipWs _
+    simp only
+    generalize (if ws = true then skipWs rest else rest) = r at h2
+    cases r with
+    | nil => exact Consumes.refl _
+    | cons u r =>
+      simp only
+      cases hu : isU u with
+      | false => simp; exact Consumes.refl _
+      | true =>
+        simp only [↓reduceIte]
+        exact h1.trans (h2.trans (Consumes.cons (hU u hu) (Consumes.refl _)))
+
+theorem consumes_optGroupLast (isU : Char → Bool) (hU : ∀ c, isU c = true → allowedChar c = true)
+    (cs : List Char) : Consumes cs (optGroupLast isU cs).2 := by
+  unfold optGroupLast
+  cases hp : parseNum cs with
+  | none => exact Consumes.refl _
+  | some nr =>
+    obtain ⟨n, rest⟩ := nr
+    have h1 := consumes_parseNum cs n rest hp
+    have h2 := consumes_skipWs rest
+    simp only
+    generalize skipWs rest = r at h2
+    cases r with
+    | nil => exact h1.trans h2
+    | cons u r =>
+      simp only
+      cases hu : isU u with
+      | false => simp; exact h1.trans h2
+      | true =>
+        simp only [↓reduceIte]
+        exact h1.trans (h2.trans (Consumes.cons (hU u hu) (Consumes.refl _)))
+
+theorem consumes_of_skipWs_empty (r : List Char) (h : (skipWs r).isEmpty = true) : Consumes r [] := by
+  have := consumes_skipWs r
+  rwa [List.isEmpty_iff.mp h] at this
+
+theorem allowed_isD (c : Char) (h : isD c = true) : allowedChar c = true := by simp [allowedChar, h]
+theorem allowed_isH (c : Char) (h : isH c = true) : allowedChar c = true := by simp [allowedChar, h]
+theorem allowed_isM (c : Char) (h : isM c = true) : allowedChar c = true := by simp [allowedChar, h]
+theorem allowed_isS (c : Char) (h : isS c = true) : allowedChar c = true := by simp [allowedChar, h]
+theorem allowed_eq (u : Char) (hu : allowedChar u = true) (c : Char) (h : (c == u) = true) :
+    allowedChar c = true := by
+  have : c = u := by simpa using h
+  rw [this]; exact hu
+
+theorem matchTrad_allowed (cs : List Char) (g : Groups) (h : matchTrad cs = some g) : allAllowed cs := by
+  unfold matchTrad at h
+  have c0 := consumes_skipWs cs
+  have c1 := consumes_optGroup true isD allowed_isD (skipWs cs)
+  generalize optGroup true isD (skipWs cs) = p1 at h c1
+  obtain ⟨d, r1⟩ := p1
+  simp only at h c1
+  have c2 := (consumes_skipWs r1).trans (consumes_optGroup true isH allowed_isH (skipWs r1))
+  generalize optGroup true isH (skipWs r1) = p2 at h c2
+  obtain ⟨hh, r2⟩ := p2
+  simp only at h c2
+  have c3 := (consumes_skipWs r2).trans (consumes_optGroup true isM allowed_isM (skipWs r2))
+  generalize optGroup true isM (skipWs r2) = p3 at h c3
+  obtain ⟨m, r3⟩ := p3
+  simp only at h c3
+  have c4 := (consumes_skipWs r3).trans (consumes_optGroupLast isS allowed_isS (skipWs r3))
+  generalize optGroupLast isS (skipWs r3) = p4 at h c4
+  obtain ⟨sec, r4⟩ := p4
+  simp only at h c4
+  cases he : (skipWs r4).isEmpty with
+  | false => simp [he] at h
+  | true =>
+    exact (c0.trans (c1.trans (c2.trans (c3.trans (c4.trans (consumes_of_skipWs_empty _ he)))))).all
+
+theorem isoTime_allowed (y mo d : Option Num) (r : List Char) (g : Groups)
+    (h : isoTime y mo d r = some g) : Consumes r [] := by
+  unfold isoTime at h
+  have c1 := consumes_optGroup false (· == 'H') (allowed_eq 'H' (by decide)) r
+  generalize optGroup false (· == 'H') r = p1 at h c1
+  obtain ⟨hh, r1⟩ := p1
+  simp only at h c1
+  have c2 := consumes_optGroup false (· == 'M') (allowed_eq 'M' (by decide)) r1
+  generalize optGroup false (· == 'M') r1 = p2 at h c2
+  obtain ⟨m, r2⟩ := p2
+  simp only at h c2
+  have c3 := consumes_optGroup false (· == 'S') (allowed_eq 'S' (by decide)) r2
+  generalize optGroup false (· == 'S') r2 = p3 at h c3
+  obtain ⟨sec, r3⟩ := p3
+  simp only at h c3
+  cases he : (skipWs r3).isEmpty with
+  | false => simp [he] at h
+  | true => exact c1.trans (c2.trans (c3.trans (consumes_of_skipWs_empty _ he)))
+
+theorem isoAfterP_allowed (r : List Char) (g : Groups) (h : isoAfterP r = some g) : Consumes r [] := by
+  unfold isoAfterP at h
+  have c1 := consumes_optGroup false (· == 'Y') (allowed_eq 'Y' (by decide)) r
+  generalize optGroup false (· == 'Y') r = p1 at h c1
+  obtain ⟨y, r1⟩ := p1
+  simp only at h c1
+  have c2 := consumes_optGroup false (· == 'M') (allowed_eq 'M' (by decide)) r1
+  generalize optGroup false (· == 'M') r1 = p2 at h c2
+  obtain ⟨mo, r2⟩ := p2
+  simp only at h c2
+  have c3 := consumes_optGroup false (· == 'D') (allowed_eq 'D' (by decide)) r2
+  generalize optGroup false (· == 'D') r2 = p3 at h c3
+  obtain ⟨d, r3⟩ := p3
+  simp only at h c3
+  cases r3 with
+  | nil => exact c1.trans (c2.trans c3)
+  | cons c r' =>
+    simp only at h
+    cases hT : (c == 'T') with
+    | true =>
+      simp only [hT, ↓reduceIte] at h
+      have := isoTime_allowed _ _ _ _ _ h
+      exact c1.trans (c2.trans (c3.trans (Consumes.cons (allowed_eq 'T' (by decide) c hT) this)))
+    | false =>
+      simp only [hT, Bool.false_eq_true, ↓reduceIte] at h
+      cases he : (skipWs (c :: r')).isEmpty with
+      | false => simp [he] at h
+      | true => exact c1.trans (c2.trans (c3.trans (consumes_of_skipWs_empty _ he)))
+
+theorem matchIso_allowed (cs : List Char) (g : Groups) (h : matchIso cs = some g) : allAllowed cs := by
+  unfold matchIso at h
+  have c0 := consumes_skipWs cs
+  generalize skipWs cs = r at h c0
+  cases r with
+  | nil => simp at h
+  | cons c r =>
+    simp only at h
+    cases hP : (c == 'P') with
+    | false => simp [hP] at h
+    | true =>
+      simp only [hP, ↓reduceIte] at h
+      exact (c0.trans (Consumes.cons (allowed_eq 'P' (by decide) c hP) (isoAfterP_allowed _ _ h))).all
+
+/-! ### repeated and misordered units -/
+
+/-- the lower-case unit letters and their rank in the fixed order -/
+def isUnitLetter (c : Char) : Bool := c == 'd' || c == 'h' || c == 'm' || c == 's'
+def unitRank (c : Char) : Nat := if c = 'd' then 0 else if c = 'h' then 1 else if c = 'm' then 2 else 3
+
+theorem unitLetter_facts (c : Char) (h : isUnitLetter c = true) : numEnd c = true ∧ isWs c = false := by
+  simp only [isUnitLetter, Bool.or_eq_true, beq_iff_eq] at h
+  rcases h with ((h | h) | h) | h <;> subst h <;> decide
+
+theorem optGroup_cons (isU : Char → Bool) (t : NumText) (wf : t.WF) (c : Char) (R : List Char)
+    (hc : isUnitLetter c = true) :
+    optGroup true isU (t.text ++ c :: R) =
+      if isU c then (some t.num, R) else (none, t.text ++ c :: R) := by
+  obtain ⟨h1, h2⟩ := unitLetter_facts c hc
+  rw [optGroup_text true isU t wf _ (by simpa [headSat] using h1)]
+  simp only [↓reduceIte, skipWs_cons_of_not_ws _ h2]
+
+theorem optGroupLast_cons (isU : Char → Bool) (t : NumText) (wf : t.WF) (c : Char) (R : List Char)
+    (hc : isUnitLetter c = true) :
+    optGroupLast isU (t.text ++ c :: R) =
+      if isU c then (some t.num, R) else (some t.num, c :: R) := by
+  obtain ⟨h1, h2⟩ := unitLetter_facts c hc
+  rw [optGroupLast_text isU t wf _ (by simpa [headSat] using h1)]
+  simp only [skipWs_cons_of_not_ws _ h2]
+
+theorem text_ne_nil (t : NumText) (wf : t.WF) (R : List Char) : (t.text ++ R).isEmpty = false := by
+  obtain ⟨ip, fr⟩ := t
+  cases ip with
+  | nil => exact absurd rfl wf.1
+  | cons d ds => simp [NumText.text]
+
+theorem matchIso_digit (t : NumText) (wf : t.WF) (R : List Char) : matchIso (t.text ++ R) = none := by
+  unfold matchIso
+  rw [NumText.text_skipWs t wf]
+  obtain ⟨ip, fr⟩ := t
+  obtain ⟨hne, hip, _⟩ := wf
+  cases ip with
+  | nil => exact absurd rfl hne
+  | cons d ds =>
+    have hd : d.isDigit = true := hip d (by simp)
+    have : (d == 'P') = false := by
+      cases h : (d == 'P') with
+      | false => rfl
+      | true => have : d = 'P' := by simpa using h
+                subst this; exact absurd hd (by decide)
+    simp [NumText.text, this]
+
 end Edzed.TimeUnits
